@@ -520,3 +520,139 @@ pub fn vertex_arg(raw: u16, class: u8, order: usize) -> usize {
         }
     }
 }
+
+// --- greedy post-shrinking candidates (used after proptest's own shrink) ----
+
+pub fn relabel(v: usize, removed: usize) -> Option<usize> {
+    match v.cmp(&removed) {
+        std::cmp::Ordering::Less => Some(v),
+        std::cmp::Ordering::Equal => None,
+        std::cmp::Ordering::Greater => Some(v - 1),
+    }
+}
+
+/// Candidate simplifications of a weighted digraph with a vertex list that
+/// must stay consistent (sources, targets…): remove a vertex, remove an arc,
+/// lower a weight.  Each candidate comes with the vertex-relabelling it used.
+pub fn shrink_wdg<W: Clone + PartialEq>(
+    g: &WDg<W>,
+    simpler_weights: impl Fn(&W) -> Vec<W>,
+) -> Vec<(WDg<W>, Option<usize>)> {
+    let mut out = vec![];
+    if g.order > 1 {
+        for k in (0..g.order).rev() {
+            let arcs = g
+                .arcs
+                .iter()
+                .filter_map(|(u, v, w)| Some((relabel(*u, k)?, relabel(*v, k)?, w.clone())))
+                .collect();
+            out.push((
+                WDg {
+                    order: g.order - 1,
+                    arcs,
+                },
+                Some(k),
+            ));
+        }
+    }
+    for i in 0..g.arcs.len() {
+        let mut arcs = g.arcs.clone();
+        arcs.remove(i);
+        out.push((
+            WDg {
+                order: g.order,
+                arcs,
+            },
+            None,
+        ));
+    }
+    for i in 0..g.arcs.len() {
+        for w in simpler_weights(&g.arcs[i].2) {
+            if w != g.arcs[i].2 {
+                let mut arcs = g.arcs.clone();
+                arcs[i].2 = w;
+                out.push((
+                    WDg {
+                        order: g.order,
+                        arcs,
+                    },
+                    None,
+                ));
+            }
+        }
+    }
+    out
+}
+
+pub fn shrink_dg(g: &Dg) -> Vec<(Dg, Option<usize>)> {
+    let w = WDg {
+        order: g.order,
+        arcs: g.arcs.iter().map(|&(u, v)| (u, v, ())).collect(),
+    };
+    shrink_wdg(&w, |_| vec![])
+        .into_iter()
+        .map(|(x, k)| {
+            (
+                Dg {
+                    order: x.order,
+                    arcs: x.arcs.iter().map(|&(u, v, ())| (u, v)).collect(),
+                },
+                k,
+            )
+        })
+        .collect()
+}
+
+pub fn relabel_list(l: &[usize], removed: Option<usize>) -> Vec<usize> {
+    match removed {
+        None => l.to_vec(),
+        Some(k) => l.iter().filter_map(|&v| relabel(v, k)).collect(),
+    }
+}
+
+/// Candidate simplifications of a vertex list: drop one element.
+pub fn shrink_list(l: &[usize]) -> Vec<Vec<usize>> {
+    (0..l.len())
+        .map(|i| {
+            let mut x = l.to_vec();
+            x.remove(i);
+            x
+        })
+        .collect()
+}
+
+pub fn simpler_usize(w: &usize) -> Vec<usize> {
+    let mut v = vec![0, 1, w / 2, w.saturating_sub(1)];
+    v.dedup();
+    v
+}
+
+pub fn simpler_isize(w: &isize) -> Vec<isize> {
+    let mut v = vec![0, 1, -1, w / 2, w - w.signum()];
+    v.dedup();
+    v
+}
+
+pub fn shrink_map(g: &MapDg) -> Vec<MapDg> {
+    let mut out = vec![];
+    if g.vertices.len() > 1 {
+        for i in (0..g.vertices.len()).rev() {
+            let x = g.vertices[i];
+            let mut vertices = g.vertices.clone();
+            vertices.remove(i);
+            out.push(MapDg {
+                vertices,
+                arcs: g.arcs.iter().copied().filter(|&(u, v)| u != x && v != x).collect(),
+            });
+        }
+    }
+    for i in 0..g.arcs.len() {
+        let mut arcs = g.arcs.clone();
+        arcs.remove(i);
+        out.push(MapDg {
+            vertices: g.vertices.clone(),
+            arcs,
+        });
+    }
+    out
+}
